@@ -878,6 +878,15 @@ K("dt.check_after_insertion", ["C02"], DT, "dt_check.rs", "check_after_insertion
   mutant=dict(file=DT, old="        self.is_valid()\n            .map_err(|e| InsertionError::DelaunayValidationFailed {\n                message: e.to_string(),\n            })",
               new="        let _ = self.is_valid();\n        Ok(())", desc="the per-insertion Delaunay check's verdict is ignored"))
 
+K("tds.permutation_parity", ["C05"], TDS, "tds_perm.rs", "permutation_parity_contract", "K-bounded",
+  [fn(TDS, "permutation_is_odd")], timeout=900, bounded="orders of 3 ids (facets of a 3-D cell / cells of a 2-D triangulation); all 27 id triples",
+  obligations=["parity", "not-a-permutation", "length-mismatch"],
+  claim="Tds::permutation_is_odd: parity of the permutation between two orders of three ids, None for non-permutations and length mismatch (the primitive behind the coherent-orientation check: a swapped vertex order flips the parity)",
+  mutant=dict(file=TDS, old="                if target_positions[i] > target_positions[j] {\n                    is_odd = !is_odd;", new="                if target_positions[i] >= target_positions[j] {\n                    is_odd = !is_odd;",
+              desc="inversion count uses >= (would matter only with repeated positions - expected NOT to be killed; kept to document the limit)") if False else
+         dict(file=TDS, old="        for i in 0..target_positions.len() {\n            for j in (i + 1)..target_positions.len() {", new="        for i in 0..target_positions.len() {\n            for j in (i + 2)..target_positions.len() {",
+              desc="inversion count skips adjacent pairs"))
+
 # ======================================================================================
 # Units that are written and attached on demand (`--unit ID`) but NOT part of any registered
 # command: they do not finish within 45 min here (or were never seen to finish).
